@@ -74,6 +74,45 @@ var (
 // AuxLen reports how many bytes of auxiliary state a Point carries.
 func AuxLen() int { return auxLen }
 
+// simplePointers: pointer-free data, or plain data behind pointers and slices
+// (a cached encoding behind a *[32]byte, a []byte). Such auxiliary state can
+// still be carried along as opaque bytes - a copy shares what it points to,
+// exactly like the Go assignment *q = *p - provided everything it ever pointed
+// to is kept alive (see keepAlive) and the shallow-copy self-test passes.
+func simplePointers(t reflect.Type) bool {
+	if pointerFree(t) {
+		return true
+	}
+	switch t.Kind() {
+	case reflect.Ptr, reflect.Slice:
+		return pointerFree(t.Elem())
+	case reflect.Array:
+		return simplePointers(t.Elem())
+	case reflect.Struct:
+		if t.PkgPath() == "sync" || t.PkgPath() == "sync/atomic" {
+			return false
+		}
+		for i := 0; i < t.NumField(); i++ {
+			if !simplePointers(t.Field(i).Type) {
+				return false
+			}
+		}
+		return true
+	}
+	return false
+}
+
+// auxHasPointers: the auxiliary bytes of a Point contain Go pointers.
+var auxHasPointers bool
+
+// keepAlive holds a typed copy of every distinct auxiliary state with pointers
+// that the harness has read, so that what a raw snapshot points to can never
+// be collected before the snapshot is written back into a Point.
+var (
+	keepAlive []edwards25519.Point
+	keepSeen  = map[string]bool{}
+)
+
 func pointerFree(t reflect.Type) bool {
 	switch t.Kind() {
 	case reflect.Bool, reflect.Int, reflect.Int8, reflect.Int16, reflect.Int32, reflect.Int64,
@@ -133,6 +172,7 @@ func Guard() error {
 	// Any other field is auxiliary state: accepted when it is pointer-free (it is
 	// then carried along as opaque bytes), otherwise the layout is unsupported.
 	var elems []reflect.StructField
+	hasPtr := false
 	for i := 0; i < pt.NumField(); i++ {
 		f := pt.Field(i)
 		if f.Type.Size() == 0 {
@@ -145,10 +185,19 @@ func Guard() error {
 			elems = append(elems, f)
 			continue
 		}
+		if !simplePointers(f.Type) {
+			return fmt.Errorf("Point has size %d, expected %d: auxiliary field %s %s cannot be carried along as opaque bytes", pt.Size(), 4*ElemSize, f.Name, f.Type)
+		}
 		if !pointerFree(f.Type) {
-			return fmt.Errorf("Point has size %d, expected %d: auxiliary field %s %s is not pointer-free and cannot be carried along as opaque bytes", pt.Size(), 4*ElemSize, f.Name, f.Type)
+			if skipCrossCheck {
+				// the task scheduler's builds read points from several goroutines and
+				// cannot run the shallow-copy self-test before the concurrent phase
+				return fmt.Errorf("Point has size %d, expected %d: auxiliary field %s %s contains pointers, which the concurrency check does not support", pt.Size(), 4*ElemSize, f.Name, f.Type)
+			}
+			hasPtr = true
 		}
 	}
+	auxHasPointers = hasPtr
 	if len(elems) != 4 {
 		return fmt.Errorf("Point has %d coordinate fields", len(elems))
 	}
@@ -362,6 +411,47 @@ func auxNeutral() (err error) {
 			return bad("ExtendedCoordinates")
 		}
 	}
+	if auxHasPointers {
+		// shallow-copy self-test: the harness copies points bit for bit (like
+		// *q = *p), so two points may share what their auxiliary pointers point
+		// to. That must be harmless: changing one through the API must not change
+		// what the other one answers.
+		shallow := func(p *edwards25519.Point) *edwards25519.Point {
+			q := new(edwards25519.Point)
+			SetPointLimbs(q, PointLimbs(p))
+			return q
+		}
+		for _, mk := range []func() *edwards25519.Point{
+			func() *edwards25519.Point { p, _ := new(edwards25519.Point).SetBytes(enc); return p },
+			func() *edwards25519.Point { p := new(edwards25519.Point).Add(g2, g); p.Bytes(); return p },
+			func() *edwards25519.Point { p := new(edwards25519.Point).Set(d); p.Bytes(); return p },
+		} {
+			for _, mut := range []func(q *edwards25519.Point){
+				func(q *edwards25519.Point) { q.Add(q, g) },
+				func(q *edwards25519.Point) { q.Negate(q) },
+				func(q *edwards25519.Point) { q.SetBytes(g2.Bytes()) },
+				func(q *edwards25519.Point) { q.Set(g) },
+				func(q *edwards25519.Point) { q.ScalarBaseMult(edwards25519.NewScalar()) },
+			} {
+				p := mk()
+				want := string(g3.Bytes())
+				q := shallow(p)
+				q.Bytes()
+				mut(q)
+				q.Bytes()
+				if string(p.Bytes()) != want || p.Equal(g3) != 1 {
+					return bad("a bit-copy of a point shares auxiliary memory with it, and changing the copy changed the original")
+				}
+				p2 := mk()
+				q2 := shallow(p2)
+				mut(p2)
+				p2.Bytes()
+				if string(q2.Bytes()) != want || q2.Equal(g3) != 1 {
+					return bad("a bit-copy of a point shares auxiliary memory with it, and changing the original changed the copy")
+				}
+			}
+		}
+	}
 	return nil
 }
 
@@ -397,6 +487,10 @@ func PointLimbs(p *edwards25519.Point) PointRaw {
 				break
 			}
 		}
+		if auxHasPointers && r.Aux != "" && !keepSeen[r.Aux] {
+			keepSeen[r.Aux] = true
+			keepAlive = append(keepAlive, *p)
+		}
 	}
 	return r
 }
@@ -410,14 +504,29 @@ func SetPointLimbs(p *edwards25519.Point, r PointRaw) {
 	*(*Limbs)(unsafe.Add(b, pointOff[3])) = r.T
 	if auxLen > 0 {
 		k := 0
+		full := len(r.Aux) == auxLen
 		for _, sp := range auxSpans {
-			dst := unsafe.Slice((*byte)(unsafe.Add(b, sp[0])), sp[1]-sp[0])
-			for i := range dst {
-				if len(r.Aux) == auxLen {
-					dst[i] = r.Aux[k]
-				} else {
-					dst[i] = 0
+			n := sp[1] - sp[0]
+			i := uintptr(0)
+			if sp[0]%8 == 0 {
+				// whole words first: a pointer is never written byte by byte
+				for ; i+8 <= n; i += 8 {
+					var w uint64
+					if full {
+						for j := 7; j >= 0; j-- {
+							w = w<<8 | uint64(r.Aux[k+j])
+						}
+					}
+					*(*uint64)(unsafe.Add(b, sp[0]+i)) = w
+					k += 8
 				}
+			}
+			for ; i < n; i++ {
+				var x byte
+				if full {
+					x = r.Aux[k]
+				}
+				*(*byte)(unsafe.Add(b, sp[0]+i)) = x
 				k++
 			}
 		}
